@@ -10,6 +10,7 @@ import (
 	"os/exec"
 	"path/filepath"
 	"runtime"
+	"sort"
 	"strconv"
 	"strings"
 	"time"
@@ -311,6 +312,7 @@ func c17RefreshWorker(path string, n int) int {
 	p := world.Std()
 	var m0, m1 runtime.MemStats
 	verdict, errs := "", ""
+	steps := map[string]uint64{}
 	serial := func(i int) *big.Int {
 		return new(big.Int).Add(new(big.Int).Lsh(big.NewInt(1), 70), big.NewInt(int64(i)))
 	}
@@ -337,14 +339,33 @@ func c17RefreshWorker(path string, n int) int {
 		}}
 		runtime.GC()
 		runtime.ReadMemStats(&m0)
+		// bytes allocated between two consecutive effect points (file / database operations) which are not both inserts:
+		// everything outside the per-entry loop - download, hashing, staging set-up, swap - allocates a bounded amount
+		lastKind, lastAlloc := "", m0.TotalAlloc
+		vsched.EffectHook = func(kind, arg string) error {
+			if kind == "ldb.put" && lastKind == "ldb.put" {
+				return nil
+			}
+			var m runtime.MemStats
+			runtime.ReadMemStats(&m)
+			if d := m.TotalAlloc - lastAlloc; !(kind == "ldb.put" || lastKind == "ldb.put") {
+				if l := lastKind + " -> " + kind; d > steps[l] {
+					steps[l] = d
+				}
+			}
+			lastKind, lastAlloc = kind, m.TotalAlloc
+			return nil
+		}
 		w.Chk.VerifUpdateCRLs(true)
 		vsched.Drain()
+		vsched.EffectHook = nil
 		runtime.ReadMemStats(&m1)
 		last := world.Leaf(p.CA, serial(n-1), []string{urlA}, nil)
 		verdict = w.Lookup(last, world.Chain(last, p.CA, p.Root)).String()
 		w.Chk.Cleanup()
 	})
-	b, _ := json.Marshal(map[string]interface{}{"heap_sys_before": m0.HeapSys, "heap_sys_after": m1.HeapSys, "verdict_last_entry": verdict, "err": errs})
+	b, _ := json.Marshal(map[string]interface{}{"heap_sys_before": m0.HeapSys, "heap_sys_after": m1.HeapSys, "verdict_last_entry": verdict, "err": errs,
+		"max_alloc_between_effect_points": steps})
 	fmt.Println(string(b))
 	return 0
 }
@@ -357,10 +378,11 @@ func c17RefreshFootprint(chk *fw.Check, n int, dir string) int64 {
 	defer os.Remove(path)
 	out, err := exec.Command(os.Args[0], "C17", "--tier", "worker", "--", "refreshfootprint", path, fmt.Sprint(n)).Output()
 	var r struct {
-		Before  int64  `json:"heap_sys_before"`
-		After   int64  `json:"heap_sys_after"`
-		Verdict string `json:"verdict_last_entry"`
-		Err     string `json:"err"`
+		Before  int64            `json:"heap_sys_before"`
+		After   int64            `json:"heap_sys_after"`
+		Verdict string           `json:"verdict_last_entry"`
+		Err     string           `json:"err"`
+		Steps   map[string]int64 `json:"max_alloc_between_effect_points"`
 	}
 	lines := strings.Split(strings.TrimSpace(string(out)), "\n")
 	if err != nil || json.Unmarshal([]byte(lines[len(lines)-1]), &r) != nil {
@@ -371,6 +393,7 @@ func c17RefreshFootprint(chk *fw.Check, n int, dir string) int64 {
 		chk.Violation("C17|disk-path-failed|refresh", fmt.Sprintf("refresh to a %d-entry CRL: %s; last entry => %s", n, r.Err, r.Verdict), nil)
 		return -1
 	}
+	c17RefreshSteps[n] = r.Steps
 	g := r.After - r.Before
 	if g > c17RefreshBound {
 		chk.Violation("C17|refresh-footprint-grows", fmt.Sprintf("refresh of a disk-backed validator to a %d-entry CRL: the heap obtained from the OS grew by %d bytes (bound %d independent of the size)", n, g, c17RefreshBound), map[string]interface{}{"n": n})
@@ -379,6 +402,10 @@ func c17RefreshFootprint(chk *fw.Check, n int, dir string) int64 {
 }
 
 const c17RefreshBound = 96 * mib
+
+// c17RefreshSteps: per entry count, the largest number of bytes allocated between two consecutive effect points which
+// are not both inserts, by kind of interval
+var c17RefreshSteps = map[int]map[string]int64{}
 
 // c17Footprint: heap footprint of reading doc in a fresh process must stay below 32 MiB whatever the size.
 func c17Footprint(chk *fw.Check, name string, doc []byte, n int, dir string) int64 {
@@ -480,6 +507,22 @@ func RunC17(tier string, args []string) int {
 	if refreshSmall >= 0 && refreshGrowth-refreshSmall > 16*mib {
 		chk.Violation("C17|refresh-footprint-grows", fmt.Sprintf("refresh of a disk-backed validator: heap obtained from the OS grows by %d bytes for %d entries and by %d bytes for %d entries (difference bound 16 MiB)", refreshSmall, fpN/4, refreshGrowth, fpN), nil)
 	}
+	// everything outside the per-entry loop (download, staging set-up, swap, re-open) allocates an amount which does
+	// not depend on the size: per kind of interval between two effect points, large minus small <= 12 MiB
+	var stepNotes []string
+	for l, big := range c17RefreshSteps[fpN] {
+		small, ok := c17RefreshSteps[fpN/4][l]
+		if !ok {
+			continue
+		}
+		if big > 2*mib {
+			stepNotes = append(stepNotes, fmt.Sprintf("%s: %d -> %d bytes", l, small, big))
+		}
+		if big-small > 12*mib {
+			chk.Violation("C17|refresh-allocates-with-size-outside-the-entry-loop|"+l, fmt.Sprintf("refresh of a disk-backed validator: between the effect points %s (outside the per-entry loop) %d bytes are allocated for %d entries and %d bytes for %d entries (difference bound 12 MiB)", l, small, fpN/4, big, fpN), nil)
+		}
+	}
+	sort.Strings(stepNotes)
 	evals += 2
 	distinct += 2
 	var growths []int64
@@ -496,8 +539,9 @@ func RunC17(tier string, args []string) int {
 		"disk_peak_growth_bytes":         growths,
 		"reader_footprint_growth_bytes":  footprints,
 		"refresh_footprint_growth_bytes": []int64{refreshSmall, refreshGrowth},
-		"samples":                        []string{"N=256 DER", fmt.Sprintf("N=%d PEM", 1<<maxK), "64 MiB lazily produced download body", fmt.Sprintf("disk path N=%d", diskN[0])},
-		"exhaustive":                     true,
+		"refresh_alloc_between_effect_points_over_2MiB": stepNotes,
+		"samples":    []string{"N=256 DER", fmt.Sprintf("N=%d PEM", 1<<maxK), "64 MiB lazily produced download body", fmt.Sprintf("disk path N=%d", diskN[0])},
+		"exhaustive": true,
 	}
 	return chk.Finish(cov)
 }
